@@ -294,6 +294,7 @@ def c14_sparse_dense(cfg):
     H2 = np.diag(np.arange(1.0, N + 1))
     scale = float(cfg.get("scale", 1.0))  # exact power of two: results scale exactly; small values probe the zero tolerance
     H1, H2 = H1 * scale, H2 * scale  # every INPUT block stays above the documented zero tolerance atol = 1e-12
+    FORMATS = ["dense", "sparse", "sparse_h1_only"] + (["blocks_dense", "blocks_csr_array", "blocks_coo_array", "blocks_csr_matrix", "blocks_coo_matrix"] if cfg.get("blocked") else [])
     cases = bad = 0
     first = None
     assignments = [a for a in itertools.product(range(cfg["nblocks"]), repeat=N) if all(a[k] <= max(a[:k], default=-1) + 1 for k in range(N))]
@@ -320,20 +321,45 @@ def c14_sparse_dense(cfg):
                 outs = []
                 with warnings.catch_warnings():
                     warnings.simplefilter("ignore")
-                    for fmt in ("dense", "sparse", "sparse_h1_only"):
+                    for fmt in FORMATS:
+                        kw = dict(subspace_indices=list(blocks))
                         if fmt == "dense":
                             ham = {(0,): H0, (1,): H1.copy(), (2,): H2.copy()}
                         elif fmt == "sparse":
                             ham = {(0,): sparse.csr_array(H0), (1,): sparse.csr_array(H1), (2,): sparse.csr_array(H2)}
-                        else:
+                        elif fmt == "sparse_h1_only":
                             ham = {(0,): H0, (1,): sparse.coo_array(H1), (2,): H2.copy()}
-                        res = block_diagonalize(ham, subspace_indices=list(blocks), fully_diagonalize=fd, hermitian=herm)
+                        else:
+                            # pre-blocked input (nested lists of blocks reach the algorithm unprojected) with every container type
+                            conv = {"blocks_dense": np.array, "blocks_csr_array": sparse.csr_array, "blocks_coo_array": sparse.coo_array,
+                                    "blocks_csr_matrix": sparse.csr_matrix, "blocks_coo_matrix": sparse.coo_matrix}[fmt]
+                            sel = [[k for k in range(N) if blocks[k] == b] for b in range(nb)]
+
+                            def split(M, conv=conv, sel=sel):
+                                return [[conv(M[np.ix_(sel[i], sel[j])]) for j in range(nb)] for i in range(nb)]
+
+                            ham = {(0,): split(H0), (1,): split(H1), (2,): split(H2)}
+                            kw = {}
                         vals = {}
+                        try:
+                            res = block_diagonalize(ham, fully_diagonalize=fd, hermitian=herm, **kw)
+                            raw = {(w, i, j, n): S[(i, j, n)] for w, S in enumerate(res) for n in range(maxo + 1) for i in range(nb) for j in range(nb)}
+                        except Exception as e:  # noqa: BLE001
+                            from .herm import library_exception_info
+
+                            is_lib, where = library_exception_info(e, pure_inputs=True)
+                            if not is_lib:
+                                raise
+                            bad += 1
+                            first = first or {"spectrum": list(spec), "subspace_indices": list(blocks), "fully_diagonalize": fdk, "format": fmt,
+                                              "raised": f"{type(e).__name__}: {e}"[:200], "where": where, "hermitian": herm}
+                            outs.append(None)
+                            continue
                         for w, S in enumerate(res):
                             for n in range(maxo + 1):
                                 for i in range(nb):
                                     for j in range(nb):
-                                        v = S[(i, j, n)]
+                                        v = raw[(w, i, j, n)]
                                         di, dj = blocks.count(i), blocks.count(j)
                                         if v is zero:
                                             v = np.zeros((di, dj))
@@ -343,8 +369,10 @@ def c14_sparse_dense(cfg):
                                             v = v.toarray()
                                         vals[(w, i, j, n)] = np.asarray(v, dtype=complex)
                         outs.append(vals)
-                for k in outs[0]:
-                    for other, nm in ((outs[1], "sparse"), (outs[2], "sparse_h1_only")):
+                for k in (outs[0] or {}):
+                    for other, nm in zip(outs[1:], FORMATS[1:]):
+                        if other is None:
+                            continue
                         a, b = outs[0][k], other[k]
                         sc = max(scale ** max(k[3], 1) * 1e-3, float(np.max(np.abs(a))) if a.size else 0.0)
                         if a.shape != b.shape or not np.all(np.isfinite(b)) or np.max(np.abs(a - b), initial=0.0) > 1e-9 * sc:
@@ -474,6 +502,10 @@ def configs(tier):
             jobs.append(("vf.props.formats", "c14_sparse_dense", dict(sparse_dense=True, N=N, nblocks=nbl, hermitian=herm, max_order=3)))
         # perturbation of size 2^-30 (well above atol = 1e-12, far below 1): the documented zero tolerance, not numpy's default
         jobs.append(("vf.props.formats", "c14_sparse_dense", dict(sparse_dense=True, N=3, nblocks=2, hermitian=herm, max_order=2, scale=2.0 ** -30)))
+        # pre-blocked nested lists with dense / sparse-array / legacy sparse-matrix blocks (they reach the algorithm unprojected)
+        jobs.append(("vf.props.formats", "c14_sparse_dense", dict(sparse_dense=True, N=3, nblocks=2, hermitian=herm, max_order=3, blocked=True)))
+        if tier == "thorough":
+            jobs.append(("vf.props.formats", "c14_sparse_dense", dict(sparse_dense=True, N=4, nblocks=2, hermitian=herm, max_order=2, blocked=True)))
     for kind in ("real", "complex", "biorthogonal"):
         for sizes in ([1, 2], [2, 2], [1, 1, 1]):
             jobs.append(("vf.props.formats", "c14_operator", dict(operator=True, sizes=list(sizes), basis=kind, hermitian=False)))
